@@ -11,7 +11,9 @@
 (*   err[r][k]   per-peak dense rank of the harness's own reference error  *)
 (*               |UBI_r.g_k - round|^2 (g_k recomputed for the grain's     *)
 (*               position on the assignlabels route) among the errors of   *)
-(*               peak k, E if not strictly below the row's tol^2           *)
+(*               peak k, E if not strictly below the row's tol^2 (a peak   *)
+(*               with a non-finite g-vector - NaN / inf component - has no *)
+(*               error below any tolerance: E on every row)                *)
 (*   lab0[k]     content of the labels buffer before the first call        *)
 (*               (drlv2 starts at E = "the caller's 1.0 / 2.0")            *)
 (*   ev[i]       kind "call": [row, n, obs, labels[k], dr[k]] = row        *)
